@@ -504,6 +504,7 @@ int main(int argc, char** argv)
   if (mode == "run") { // normal main: used under simgrid-mc, with --cfg=model-check/replay, and in plain (non-MC) runs
     int idx = atoi(argv[3]); int ac = argc - 3; char** av = argv + 3; av[0] = argv[0];
     setup(progs.at(idx), &ac, av);
+    sg4::Engine::on_deadlock_cb([] { printf("DEADLOCK %s\n", canonical().c_str()); fflush(stdout); });
     sg4::Engine::get_instance()->run();
     printf("FINAL %s\n", canonical().c_str()); fflush(stdout);
     _exit(0);
